@@ -24,6 +24,7 @@ from fw import Outcome
 import c15gen as G
 
 PROP = "C15"
+EXTRA_MODS = ["Export.Run"]
 CORPUS = os.path.join(fw.VERIF, "corpus", PROP)
 PY_BUILTINS = sorted(n for n in builtins.__dict__.keys() if n[:2] != '__' or n[-2:] != '__')
 
@@ -182,6 +183,63 @@ def coq_bi():
     return "Definition bi : list string := %s.\n" % G._cl([G._cs(x) for x in PY_BUILTINS])
 
 
+# ---- (E): the Gallina evaluator on the implementation's dumped state --------------------
+def coq_dval(v):
+    k = v[0]
+    if k == "i":
+        return "(VInt (%d))" % v[1]
+    if k == "b":
+        return "(VBool %s)" % ("true" if v[1] else "false")
+    if k == "l":
+        return "(VList %s)" % G._cl(["(VInt (%d))" % x for x in v[1]])
+    if k == "obj":
+        return "(VObj %d%%nat)" % v[1]
+    if k == "cell":
+        return "(VCell %d%%nat %s)" % (v[1], G._cs(v[2]))
+    return '(VBuiltin "<opaque>")'
+
+
+def coq_canon(v):
+    """canonical observed value -> Gallina value, None when outside the evaluator's values"""
+    if v[0] == "i":
+        return "(VInt (%d))" % v[1]
+    if v[0] == "l":
+        xs = [coq_canon(x) for x in v[1]]
+        return None if any(x is None for x in xs) else "(VList %s)" % G._cl(xs)
+    return None
+
+
+def e_case(case, res):
+    """Gallina term (tables, queries) for one case, number of queries, or None"""
+    d = res.get("dump")
+    if not d:
+        return None, 0
+    tbls = []
+    for sp in d["spaces"]:
+        ns = G._cl(["(%s, %s)" % (G._cs(n), coq_dval(v)) for n, v in sp["ns"]])
+        cells = G._cl(["(%s, (%s, %s))" % (G._cs(n), G._cl([G._cs(p) for p in ps]), G.coq_expr(b)) for n, ps, b in sp["cells"]])
+        items = G._cl(["(%s, %d%%nat)" % (G._cl(["(%d)%%Z" % x for x in k]), s) for k, s in sp["items"]])
+        tbls.append("{| s_ns := %s; s_cells := %s; s_items := %s; s_top := %s; s_cellnames := %s |}" % (
+            ns, cells, items, G._cl([G._cs(x) for x in sp["top"]]), G._cl([G._cs(x) for x in sp["cellnames"]])))
+    qs = []
+    arity = {}
+    for sid, sp in enumerate(d["spaces"]):
+        for n, ps, b in sp["cells"]:
+            arity[(sid, n)] = len(ps)
+    for qi, q in enumerate(case["queries"]):
+        sid = d["qsid"][qi]
+        ma = res["vals"]["ma"][qi]
+        if sid is None or ma[0] == "err":
+            continue
+        v = coq_canon(ma)
+        if v is None or arity.get((sid, q["cell"])) != len(q["args"]):
+            continue            # value outside the evaluator's vocabulary / default arguments used
+        qs.append("(%d%%nat, %s, %s, %s)" % (sid, G._cs(q["cell"]), G._cl(["(VInt (%d))" % a for a in q["args"]]), v))
+    if not qs:
+        return None, 0
+    return "(%s, %s)" % (G._cl(tbls), G._cl(qs)), len(qs)
+
+
 def spec_ast_index(case):
     idx = {}
     for sp in case["spaces"]:
@@ -256,6 +314,7 @@ def run(tier, seed, rng):
         metas += m
         for dmm in direct:
             out.tie_mismatches.append(dict(dmm, model=c))
+    by_id = {c["id"]: c for c in cases}
     bad = fw.run_coq_cases("C15", ["Export.Model"], CASE_T, CHECK, terms, shard=150, extra_defs=coq_bi()) if terms else []
     for i in bad[:10]:
         mm = metas[i]
@@ -265,9 +324,35 @@ def run(tier, seed, rng):
                                G._cl([G._cs(x) for x in mm["params"]]), G.coq_expr(mm["src"]), G.coq_expr(mm["src"])),
                            extra_defs=coq_bi())
         out.tie_mismatches.append({"case": mm["case"], "fn": mm["fn"], "detail": "FormulaTransformer output differs from Export/Model.v transform",
-                                   "source": G.pblock(mm["src"], 1), "impl": G.pblock(mm["out"], 1), "model": show[-1500:]})
+                                   "source": G.pblock(mm["src"], 1), "impl": G.pblock(mm["out"], 1), "coq": show[-1500:],
+                                   "model": by_id.get(mm["case"])})
+    # ---- (E) evaluator tie: call_cells in both worlds on the dumped state == observed values ----
+    eterms, emeta, nq = [], [], 0
+    dump_errs = 0
+    for c, r in zip(cases, res):
+        if r.get("build_err"):
+            continue
+        if r.get("dump_err"):
+            dump_errs += 1
+            out.notes.append("model %s could not be dumped: %s" % (c["id"], r["dump_err"]))
+            continue
+        t, k2 = e_case(c, r)
+        if t:
+            eterms.append(t); emeta.append((c, r)); nq += k2
+    if dump_errs > max(3, len(cases) // 10):
+        raise fw.Broken("%d models could not be dumped for the evaluator tie" % dump_errs)
+    ebad = fw.run_coq_cases("C15e", ["Export.Model", "Export.Run"], "list stbl * list query", "check_model bi", eterms,
+                            shard=12, extra_defs=coq_bi()) if eterms else []
+    for i in ebad[:5]:
+        c, r = emeta[i]
+        show = fw.coq_show("C15e", ["Export.Model", "Export.Run"],
+                           "let c := %s in (failing (check_query (mk_model (fst c) bi)) (snd c), map (show_query bi (fst c)) (snd c))" % eterms[i],
+                           extra_defs=coq_bi())
+        out.tie_mismatches.append({"case": c["id"], "detail": "Gallina evaluator (Export/Model.v eval, both worlds) disagrees with the values of the implementation",
+                                   "model": c, "coq": show[-2500:], "script": repro_script(c)})
     out.evaluations = len(cases)
-    out.traces_validated = len(terms) - len(bad)
+    out.traces_validated = len(terms) - len(bad) + len(eterms) - len(ebad)
+    out.extra["evaluator_tie"] = {"models": len(eterms), "queries": nq, "mismatching_models": len(ebad)}
     nontriv = set()
     for mm in metas:
         if has_binder(mm["src"]) and mm["src"] != mm["out"]:
